@@ -95,6 +95,9 @@ def generate(ctx, quick):
     runs += [("gen/Gen_DSLProgram_sim.cfg", nsim[0], "Gen simulate full table"),
              ("gen/Gen_DSLProgram_doc.cfg", nsim[1], "Gen simulate documented shapes"),
              ("gen/Gen_DSLProgram_refs.cfg", nsim[2], "Gen simulate reference-rich")]
+    # focused walks: a fixed spine (one service, method, transport block, payload/result) and a handful of functions around one kind of reference
+    for name in ("map", "err", "body", "tag", "grpc", "view"):
+        runs.append(("gen/Gen_DSLProgram_%s.cfg" % name, 100 if quick else 600, "Gen simulate focused " + name))
 
     def one(r):
         cfg, sim, label = r
@@ -103,7 +106,7 @@ def generate(ctx, quick):
             kw.update(simulate=sim, depth=200)
         return ctx.gen("mc/MC_DSLProgram", cfg, **kw).vectors
     vectors, seen = [], set()
-    with cf.ThreadPoolExecutor(max_workers=3) as ex:
+    with cf.ThreadPoolExecutor(max_workers=4) as ex:
         for vs in ex.map(one, runs):
             for v in vs:
                 k = core.canon(v["nodes"])
